@@ -127,8 +127,12 @@ var props = map[string]propSpec{
 	}, Assumptions: with("one schedule per path: goroutines are sequentialised coroutines with rendezvous channels (no claim about interleavings, see C18)", "the application's base TLS configuration offers no library-prefixed protocol names", "a mis-routed connection shows up as a deadlock of the harness (it accepts only from the designated sub-listener)"),
 		Explanation: "real SplitListener.Start/GetListener and MultiplexingListener over the real InterceptingListener.Accept: every subset of {specific, non-specific, unauthenticated} sub-listeners, native-connection setting, an authenticated node or a plain TLS client offering an arbitrary extra protocol name (incl. the reserved ones), then base-listener closure"},
 	"C19": {Harnesses: []harnessSpec{
-		{Pkg: "storage/inmem", Fn: "VerifC19InmemStep", Validate: 16},
-	}, Assumptions: with("sequential histories only; ids are path-safe"), Explanation: "inductive step of the in-memory back end against a reference map"},
+		{Pkg: "storage/inmem", Fn: "VerifC19InmemStep", Validate: 16, MustReach: []string{"end"}},
+		{Pkg: "storage/file", Fn: "VerifC19FileStep", Validate: 16, MustReach: []string{"end"}},
+		{Pkg: "storage/testing", Fn: "VerifC19StoreOnceStep", Validate: 16, MustReach: []string{"end"}},
+	}, Assumptions: with("sequential histories only (the concurrent clause for the in-memory back end is not decided)", "ids are path-safe: non-empty, no '/', not '.' or '..' (true of every id the library generates)", "the radix tree and the file system are abstract maps (go-radix Insert/Get/Delete/DeletePrefix/ToMap; os WriteFile/ReadFile/Remove/Open+Readdirnames/OpenFile+Write); listing order is not decided",
+		"inductive step: any history of operations leaves a state that is a finite typed map; the pre-state here holds two arbitrary entries"),
+		Explanation: "inductive step of 'typed key-value map' for the in-memory, file and store-once back ends: arbitrary two-entry pre-state (types, ids, contents symbolic), one arbitrary operation on the real back-end code, compared with a reference map written in the harness"},
 	"C20": {Harnesses: []harnessSpec{
 		{Pkg: "tls", Fn: "VerifC20Whole", Loop: 12, Validate: 4, MustReach: []string{"end"}, Panics: true},
 		{Pkg: "tls", Fn: "VerifC20InterleavedFetch", Loop: 12, Validate: 8, MustReach: []string{"end"}, Panics: true},
